@@ -30,6 +30,15 @@ PROPS = {
                  "three real stand-alone partitions fed byte-identical entries, one restoring a snapshot at every cut (into a fresh or a used replica)"],
         assumptions=[GO_RUNTIME, "graph equality between replicas is not claimed (legitimately non-deterministic); contents, counters and outcomes are"],
     ),
+    "C06": dict(
+        module="Anndb.Props.C06",
+        engines=[dict(name="wal", quick=["seq=150"], thorough=["seq=4000", "steps=45"])],
+        trusted=["Badger: a WriteBatch flush / db.Update is an atomic durable map update; prefix iteration returns the keys with that prefix in byte order",
+                 "model of storage/wal/badger.go (Model/Wal.lean) tied to the real badgerWAL, and the specification Mem tied to etcd's real MemoryStorage, by exact transcript equality of every observation after every call (engine wal)",
+                 "shape facts: key layout constants"],
+        assumptions=[GO_RUNTIME, "call sequences are the legal ones of DESIGN C06 (contiguous batches starting at most one past the last index, snapshots newer than the current one, ConfState non-nil)",
+                     "group ids do not start with the bytes 'hs'/'ss' followed by the first 14 bytes of another group's id (meta_prefix_disjoint states the excluded point)"],
+    ),
     "C08": dict(
         module="Anndb.Props.C08",
         engines=[dict(name="codec", quick=["states=120"], thorough=["states=2500"]),
